@@ -71,6 +71,13 @@ def run(ctx):
         for r in (1, 2, 3, 2 ** LMS_H[l], 2 ** (LMS_H[l] + 1) - 1):
             if LMS_H[l] <= 5:
                 cases2.append(Case("node H=%s seed=%s id=%s ots=%d lms=%d r=%d" % (H, s.hex(), i.hex(), o, l, r), "derive/node", {"x": (t, r)}))
+        # leaves of tall trees (one LM-OTS key each, no tree needed): leaf numbers on both sides of 2^8 and 2^16
+        if len(cases) and c is cases[0] or ctx.tier == "thorough":
+            for lt in (6, 7, 8, 9):
+                h = LMS_H[lt]
+                tt = R.Tree(H, s, i, rng.choice([3, 4]), lt)
+                for q in sorted({0, 255, 256, 65535, 65536, 65537, 2 ** h - 1} & set(range(2 ** h))):
+                    cases2.append(Case("node H=%s seed=%s id=%s ots=%d lms=%d r=%d" % (H, s.hex(), i.hex(), tt.ots, lt, 2 ** h + q), "derive/leaf-of-tall-tree", {"x": (tt, 2 ** h + q)}))
         for c2, a2, b2 in ctx.both(cases2, None):
             if c2.cls == "derive/child":
                 H2, s2, i2, q = c2.meta["x"]
